@@ -21,7 +21,8 @@ REQUIRED = [f"ref_compared:{nn.label({'test': a, 'estim': b, 'bet': c})}" for a,
             "stratum:exact_hit_then_zero_then_nondyadic", "inverse_checked_with_null_mean_outside_0_u",
             "ref_compared:finite_N_given_as_a_numpy_integer", "predictability_of_the_estimator_values_probed", "ref_compared:fixed_bet_above_1_over_u",
             "ref_compared:negative_betting_product_seen", "ref_compared:tuning_parameters_reassigned_after_construction",
-            "stratum:total_passes_N_t_by_an_ulp_and_the_sample_goes_on"]
+            "stratum:total_passes_N_t_by_an_ulp_and_the_sample_goes_on",
+            "stratum:long_sample:overflow_then_zero_then_exact_total_then_more"]
 ASSUMPTIONS = ["eta_j and lambda_j are taken from the real estimator/bet (their ranges are C13's business)",
                "boundary-index conventions of DESIGN.md C12: at the index where the total first exceeds N t either the "
                "product value or 0 is accepted; where mu_j is within the code's tolerances of 0 or u either the product "
@@ -59,6 +60,8 @@ def run_shard(spec, rec):
             cfg, desc = nn.gen_long(rng, nn.COMBOS[r])
             if nn.in_domain(cfg, nn.expand_long(desc, cfg)):
                 rec.count("stratum:long_sample")
+                if desc["pattern"] == "overflow_zero_exact_total_then_more":
+                    rec.count("stratum:long_sample:overflow_then_zero_then_exact_total_then_more")
                 run_case({"kind": "ref", "cfg": cfg, "x_long": desc, "stratum": "long_sample"}, rec)
             continue
         if r < 9:
